@@ -89,3 +89,23 @@ def complete_apply_all(path, iter_uid, fn_re, closure_applies=None):
         if last:
             return False, "the loop is left before the iterator is exhausted"
     return False, "?"
+
+
+def call_scope(F, fn, prefix, stop=()):
+    """fn, the private helpers under the def-path `prefix` that it calls (transitively), and all their closures: rules that look for a call
+    or a closure `in this algorithm` use the scope, so that extracting or inlining a helper does not hide what they look for.
+    -> (functions, closures)"""
+    seen, todo = [], [fn]
+    while todo:
+        g = todo.pop()
+        if g in seen:
+            continue
+        seen.append(g)
+        for c in g.calls():
+            h = F.fns.get(c.path or "")
+            if h is not None and h.kind != "Closure" and h.path.startswith(prefix) and not any(h.path.endswith(x) for x in stop) and h not in seen:
+                todo.append(h)
+        for cl in F.closures_of(g):
+            if cl not in seen:
+                todo.append(cl)
+    return [g for g in seen if g.kind != "Closure"], [g for g in seen if g.kind == "Closure"]
